@@ -1485,3 +1485,392 @@ Proof.
   intros Hl Hd. unfold fr_map_to_int. destruct (Qeqb (f_step r) 0); [eauto|].
   destruct (castint_lookup r x); [eauto|]. rewrite (Hd _ (Qclip_bounds x _ _ Hl)). eauto.
 Qed.
+
+(* ================= from domain constructors to ranges (make_hyperparameter_ranges) ================= *)
+Lemma crange_ok_le r : crange_ok r = true -> c_lo r <= c_hi r.
+Proof.
+  unfold crange_ok. intro H. repeat (apply andb_true_iff in H; destruct H as [H ?]).
+  apply Qleb_true. assumption.
+Qed.
+Lemma ordeq_range_shape cats act r : ordeq_range cats act = Some r ->
+  i_lo r = 0%Z /\ i_hi r = (Z.of_nat (length cats) - 1)%Z.
+Proof.
+  unfold ordeq_range. destruct act as [a|].
+  - destruct (first_pos cats a); [|discriminate]. intro H. injection H as <-. simpl. auto.
+  - intro H. injection H as <-. simpl. auto.
+Qed.
+Lemma bin_range_shape cats act r : bin_range cats act = Some r ->
+  i_lo r = 0%Z /\ i_hi r = 1%Z /\ length cats = 2%nat.
+Proof.
+  unfold bin_range. destruct (Nat.eqb (length cats) 2) eqn:E; [|discriminate]. apply Nat.eqb_eq in E.
+  destruct act as [a|].
+  - destruct (Nat.eqb (count_in a cats) (nodup_count a)); [|discriminate].
+    destruct (if Nat.eqb (count_in a cats) 2 then None else last_active_pos a cats 0 None);
+      intro H; injection H as <-; simpl; auto.
+  - intro H. injection H as <-. simpl. auto.
+Qed.
+
+(* the range built for a legal domain is well-formed, and its members are members of the domain
+   in the sense of is_valid (type included) / of `in values` for finite ranges *)
+Lemma range_of_domain_wf eps sl sr d a h :
+  dom_wf d -> range_of_domain eps sl sr d a = Some h ->
+  hp_wf h /\ (forall x, hp_member h x -> dom_member sl d x = true).
+Proof.
+  intros Hwf H.
+  destruct d as [lo hi s|lo hi s|c s|c s|c ls|lo hi size ls ci]; simpl in Hwf; unfold range_of_domain in H.
+  - destruct (match a with Some (DFloat a0 b _) => (a0, b) | _ => (lo, hi) end) as [alo ahi].
+    match type of H with (if crange_ok ?r then _ else _) = _ => destruct (crange_ok r) eqn:Ok; [|discriminate] end.
+    injection H as <-. apply crange_ok_le in Ok. simpl in Ok. split; [exact Ok|].
+    intros x (q & -> & Hq). simpl in *. apply andb_leb_Q. exact Hq.
+  - destruct (match a with Some (DInteger a0 b _) => (a0, b) | _ => (lo, hi) end) as [alo ahi].
+    match type of H with (if irange_ok _ ?r then _ else _) = _ => destruct (irange_ok eps r) eqn:Ok; [|discriminate] end.
+    injection H as <-. unfold irange_ok in Ok. apply andb_true_iff in Ok. destruct Ok as [Ok _]. simpl in Ok.
+    split; [simpl; lia|]. intros x (z & -> & Hz). simpl in *. lia.
+  - destruct (Nat.eqb (length c) 2) eqn:E2.
+    + destruct (bin_range c _) as [r|] eqn:Er; [|discriminate]. injection H as <-.
+      destruct (bin_range_shape _ _ _ Er) as (H1 & H2 & H3).
+      split; [simpl; repeat split; auto; rewrite H3; simpl; lia|]. intros x Hx. simpl in *. destruct x; exact Hx.
+    + destruct (onehot_bounds c _); [|discriminate]. injection H as <-.
+      split; [exact Hwf|]. intros x Hx. simpl in *. destruct x; exact Hx.
+  - destruct (ordeq_range c _) as [r|] eqn:Er; [|discriminate]. injection H as <-.
+    destruct (ordeq_range_shape _ _ _ Er) as (H1 & H2).
+    split; [simpl; auto|]. intros x Hx. simpl in *. destruct x; exact Hx.
+  - destruct (Nat.ltb 1 (length c)).
+    + destruct (nn_range _ c _) as [r|]; [|discriminate]. injection H as <-.
+      split; [exact Hwf|]. intros x Hx. simpl in *. destruct x; exact Hx.
+    + destruct (ordeq_range c _) as [r|] eqn:Er; [|discriminate]. injection H as <-.
+      destruct (ordeq_range_shape _ _ _ Er) as (H1 & H2).
+      split; [simpl; auto|]. intros x Hx. simpl in *. destruct x; exact Hx.
+  - destruct a; [discriminate|].
+    destruct (frange_ok (fd_frange sl lo hi size ls ci)) eqn:Ok; [|discriminate]. injection H as <-.
+    split; [simpl; tauto|]. intros x Hx. simpl in *. destruct x; exact Hx.
+Qed.
+
+Lemma space_ranges_wf eps sl sr : forall ds hs,
+  Forall (fun p => dom_wf (fst p)) ds -> space_ranges eps sl sr ds = Some hs ->
+  Forall hp_wf hs /\
+  Forall2 (fun (p : domain * option domain) h => forall x, hp_member h x -> dom_member sl (fst p) x = true) ds hs.
+Proof.
+  induction ds as [|[d a] ds IH]; intros hs Hwf H; simpl in H.
+  - injection H as <-. split; constructor.
+  - destruct (range_of_domain eps sl sr d a) as [h|] eqn:Eh; [|discriminate].
+    destruct (space_ranges eps sl sr ds) as [hs'|] eqn:Es; [|discriminate]. injection H as <-.
+    inversion Hwf as [|? ? Hd Hds]; subst. simpl in Hd.
+    destruct (range_of_domain_wf eps sl sr d a h Hd Eh) as [W M].
+    destruct (IH hs' Hds eq_refl) as [W' M']. split; constructor; auto.
+Qed.
+
+Lemma Forall2_compose {A B C} (P : A -> B -> Prop) (Q : B -> C -> Prop) (R : A -> C -> Prop) :
+  (forall a b c, P a b -> Q b c -> R a c) ->
+  forall la lb lc, Forall2 P la lb -> Forall2 Q lb lc -> Forall2 R la lc.
+Proof.
+  intros H la lb lc H1. revert lc. induction H1; intros lc H2; inversion H2; subst; constructor; eauto.
+Qed.
+
+(* END TO END: for every configuration space of legal domains (any constructor, any active
+   sub-space the constructor of the ranges accepts), every vector of the unit cube of the advertised
+   size decodes, and every decoded value is a member of ITS DOMAIN *)
+Lemma decode_member_domains eps sl sr ds hs v :
+  0 <= eps -> Forall (fun p => dom_wf (fst p)) ds -> space_ranges eps sl sr ds = Some hs ->
+  length v = space_size hs -> Forall unit_itv v ->
+  exists xs, space_from_nd eps hs v = Some xs /\
+             Forall2 (fun (p : domain * option domain) x => dom_member sl (fst p) x = true) ds xs.
+Proof.
+  intros He Hwf Hs Hlen Hu. destruct (space_ranges_wf eps sl sr ds hs Hwf Hs) as [W M].
+  destruct (space_decode_total eps hs He W v Hlen Hu) as [xs E].
+  exists xs. split; [exact E|].
+  pose proof (space_decode_member eps hs v xs W E) as Hm.
+  eapply Forall2_compose; [|exact M|exact Hm]. intros p h x HP HQ. apply HP. exact HQ.
+Qed.
+
+(* ================= JSON form of a whole configuration space ================= *)
+Definition cs_json_ok (cs : config_space) : Prop :=
+  Forall (fun p => match snd p with EDom d => json_ok d | EConst _ => True end) cs.
+Lemma cs_json_roundtrip_ok base cs : 0 < base -> cs_json_ok cs -> cs_json_roundtrip base cs = Some cs.
+Proof.
+  intros Hb H. induction H as [|[k e] cs He _ IH]; simpl; [reflexivity|].
+  destruct e as [d|c]; simpl in He.
+  - rewrite (json_roundtrip_ok base d Hb He), IH. reflexivity.
+  - rewrite IH. reflexivity.
+Qed.
+
+(* ================= get_ndarray_bounds of a whole space: the active sub-ranges ================= *)
+(* "inside the active sub-range" (= the whole range when no active range is set) *)
+Definition hp_act (h : hprange) (x : val) : Prop :=
+  match h with
+  | HCont r => exists q, x = VF q /\ c_alo r <= q <= c_ahi r
+  | HInt r => exists z, x = VI z /\ (i_alo r <= z <= i_ahi r)%Z
+  | HFin r => mem_val x (fd_values r) = true              (* a finite range cannot be active *)
+  | HOneHot c (Some act) => mem_val x act = true
+  | HOneHot c None => mem_val x c = true
+  | HBin c r | HOrdEq c r => exists z, (i_alo r <= z <= i_ahi r)%Z /\ nth_error c (Z.to_nat z) = Some x
+  | HOrdNN _ c _ => mem_val x c = true     (* active choices of a nearest-neighbour ordinal: NOT covered *)
+  end.
+(* linear scaling for the scalar ranges (log / reverse-log: props over R) and the asserts of __init__ *)
+Definition hp_act_ok (eps : Q) (h : hprange) : Prop :=
+  match h with
+  | HCont r => c_sc r = Domain.linear /\ crange_ok r = true
+  | HInt r | HBin _ r | HOrdEq _ r => i_sc r = Domain.linear /\ irange_ok eps r = true
+  | _ => True
+  end.
+
+Lemma in_bounds_single a b v : in_bounds [(a, b)] v = true -> exists t, v = [t] /\ a <= t <= b.
+Proof.
+  unfold in_bounds. intro H. apply andb_true_iff in H. destruct H as [Hl Hf]. apply Nat.eqb_eq in Hl.
+  destruct v as [|t [|]]; simpl in Hl; try lia. exists t. split; [reflexivity|].
+  simpl in Hf. rewrite andb_true_r in Hf. apply andb_leb_Q. exact Hf.
+Qed.
+Lemma in_bounds_app : forall b1 b2 v, in_bounds (b1 ++ b2) v = true ->
+  in_bounds b1 (firstn (length b1) v) = true /\ in_bounds b2 (skipn (length b1) v) = true.
+Proof.
+  unfold in_bounds. induction b1 as [|p b1 IH]; intros b2 v H.
+  - simpl. split; [reflexivity | exact H].
+  - apply andb_true_iff in H. destruct H as [Hl Hf]. apply Nat.eqb_eq in Hl.
+    destruct v as [|x v]; [simpl in Hl; lia|]. simpl in Hl, Hf.
+    apply andb_true_iff in Hf. destruct Hf as [Hp Hf].
+    destruct (IH b2 v) as [H1 H2].
+    { apply andb_true_iff. split; [apply Nat.eqb_eq; lia | exact Hf]. }
+    apply andb_true_iff in H1. destruct H1 as [H1l H1f]. apply Nat.eqb_eq in H1l.
+    split; [|exact H2]. simpl. apply andb_true_iff. split; [apply Nat.eqb_eq; simpl; lia|].
+    rewrite Hp. exact H1f.
+Qed.
+Lemma hp_bounds_length eps h b : hp_wf h -> hp_bounds eps h = Some b -> length b = hp_size h.
+Proof.
+  intros Hwf H. destruct h as [r|r|r|c a|c r|c r|sc c r]; simpl in *;
+    try (match type of H with pair1 ?o = _ => destruct o; [|discriminate] end; injection H as <-; reflexivity).
+  unfold onehot_bounds in H. destruct a as [act|].
+  - destruct (Nat.ltb 0 (length act) && Nat.eqb (count_in act c) (length act)); [|discriminate].
+    injection H as <-. apply map_length.
+  - injection H as <-. destruct (Nat.ltb 1 (length c)) eqn:E; [apply repeat_length|].
+    apply Nat.ltb_ge in E. destruct c; [congruence|]. simpl in *. lia.
+Qed.
+
+(* one range: every vector inside its bounds decodes into the active sub-range *)
+Lemma hp_active eps h b v x :
+  0 < eps < 1#2 -> hp_wf h -> hp_act_ok eps h -> hp_bounds eps h = Some b -> in_bounds b v = true ->
+  hp_from_nd eps h v = Some x -> hp_act h x.
+Proof.
+  intros He Hwf Hok Hb Hin Hx.
+  destruct h as [r|r|r|c a|c r|c r|sc c r]; simpl in Hb, Hok |- *.
+  - destruct (cont_bounds eps r) as [[lo hi]|] eqn:Eb; [|discriminate]. injection Hb as <-.
+    destruct (in_bounds_single _ _ _ Hin) as (t & -> & Ht). simpl in Hx.
+    destruct (cont_from_nd eps r t) as [q|] eqn:Eq; [|discriminate]. injection Hx as <-.
+    exists q. split; [reflexivity|]. destruct Hok as [Hsc Hcr].
+    eapply (cont_active eps r lo hi t q); eauto. lra.
+  - destruct (int_bounds eps r) as [[lo hi]|] eqn:Eb; [|discriminate]. injection Hb as <-.
+    destruct (in_bounds_single _ _ _ Hin) as (t & -> & Ht). simpl in Hx.
+    destruct (int_from_nd eps r t) as [z|] eqn:Ez; [|discriminate]. injection Hx as <-.
+    exists z. split; [reflexivity|]. destruct Hok as [Hsc Hir].
+    eapply (int_active eps r lo hi t z); eauto.
+  - exact (hp_decode_member eps (HFin r) v x Hwf Hx).
+  - destruct a as [act|].
+    + eapply onehot_active; eauto.
+    + eapply onehot_from_nd_mem; eauto.
+  - destruct (int_bounds eps r) as [[lo hi]|] eqn:Eb; [|discriminate]. injection Hb as <-.
+    destruct (in_bounds_single _ _ _ Hin) as (t & -> & Ht). simpl in Hx. destruct Hok as [Hsc Hir].
+    eapply (idx_active eps c r lo hi t x); eauto.
+  - destruct (int_bounds eps r) as [[lo hi]|] eqn:Eb; [|discriminate]. injection Hb as <-.
+    destruct (in_bounds_single _ _ _ Hin) as (t & -> & Ht). simpl in Hx. destruct Hok as [Hsc Hir].
+    eapply (idx_active eps c r lo hi t x); eauto.
+  - exact (hp_decode_member eps (HOrdNN sc c r) v x Hwf Hx).
+Qed.
+
+(* a whole space: every vector inside get_ndarray_bounds() decodes, attribute by attribute, into the
+   active sub-ranges *)
+Lemma space_active_go eps : 0 < eps < 1#2 -> forall hs,
+  Forall (fun h => hp_wf h /\ hp_act_ok eps h) hs ->
+  forall b v ys, space_bounds_all eps hs = Some b -> in_bounds b v = true ->
+  space_from_nd_go eps hs v = Some ys -> Forall2 hp_act hs ys.
+Proof.
+  intros He hs H. induction H as [|h hs [Hwf Hok] _ IH]; intros b v ys Hb Hin Hy; simpl in Hb, Hy.
+  - injection Hy as <-. constructor.
+  - destruct (hp_bounds eps h) as [bh|] eqn:Ebh; [|discriminate].
+    destruct (space_bounds_all eps hs) as [br|] eqn:Ebr; [|discriminate]. injection Hb as <-.
+    destruct (hp_from_nd eps h (firstn (hp_size h) v)) as [x|] eqn:Ex; [|discriminate].
+    destruct (space_from_nd_go eps hs (skipn (hp_size h) v)) as [xs|] eqn:Exs; [|discriminate].
+    injection Hy as <-.
+    destruct (in_bounds_app _ _ _ Hin) as [H1 H2]. rewrite (hp_bounds_length eps h bh Hwf Ebh) in H1, H2.
+    constructor; [eapply hp_active; eauto | eapply IH; eauto].
+Qed.
+Lemma space_active eps hs b v ys :
+  0 < eps < 1#2 -> Forall (fun h => hp_wf h /\ hp_act_ok eps h) hs ->
+  space_bounds eps hs None = Some b -> in_bounds b v = true ->
+  space_from_nd eps hs v = Some ys -> Forall2 hp_act hs ys.
+Proof.
+  intros He H Hb Hin Hy. unfold space_bounds in Hb.
+  destruct (space_bounds_all eps hs) as [b'|] eqn:E; [|discriminate]. injection Hb as <-.
+  unfold space_from_nd in Hy. destruct (Nat.eqb (length v) (space_size hs)); [|discriminate].
+  eapply space_active_go; eauto.
+Qed.
+
+(* ================= fixed last position: the pinned block decodes to value_for_last_pos ================= *)
+Lemma val_eqb_trans a b c : val_eqb a b = true -> val_eqb b c = true -> val_eqb a c = true.
+Proof.
+  destruct a, b, c; simpl; try discriminate; intros H1 H2.
+  - apply Z.eqb_eq in H1, H2. apply Z.eqb_eq. lia.
+  - apply Qeqb_eq in H1, H2. apply Qeqb_eq. lra.
+  - apply Z.eqb_eq in H1, H2. apply Z.eqb_eq. lia.
+Qed.
+Lemma Qclip_comp x y lo hi : lo <= hi -> x == y -> Qclip x lo hi == Qclip y lo hi.
+Proof.
+  intros Hl E.
+  destruct (Qclip_cases x lo hi Hl) as [[? ->]|[[? ->]|[? ->]]];
+  destruct (Qclip_cases y lo hi Hl) as [[? ->]|[[? ->]|[? ->]]]; lra.
+Qed.
+Lemma Qleb_comp a b c d : a == c -> b == d -> Qleb a b = Qleb c d.
+Proof.
+  intros E1 E2. destruct (Qleb a b) eqn:H1; destruct (Qleb c d) eqn:H2; try reflexivity.
+  - apply Qleb_true in H1. assert (c <= d) as H by lra. apply Qleb_true in H. congruence.
+  - apply Qleb_true in H2. assert (a <= b) as H by lra. apply Qleb_true in H. congruence.
+Qed.
+Lemma Qltb_comp a b c d : a == c -> b == d -> Qltb a b = Qltb c d.
+Proof. intros E1 E2. unfold Qltb. f_equal. apply (Qleb_comp b a d c); assumption. Qed.
+
+(* bounds (t, t): the vector equals the pinned encoding coordinate by coordinate *)
+Lemma in_bounds_pinned : forall e w, in_bounds (map (fun t => (t, t)) e) w = true -> Forall2 Qeq w e.
+Proof.
+  unfold in_bounds. induction e as [|t e IH]; intros w H; apply andb_true_iff in H; destruct H as [Hl Hf];
+    apply Nat.eqb_eq in Hl; destruct w as [|x w]; simpl in Hl; try lia; [constructor|].
+  simpl in Hf. apply andb_true_iff in Hf. destruct Hf as [Hp Hf]. apply andb_leb_Q in Hp. simpl in Hp.
+  constructor; [lra|]. apply IH. apply andb_true_iff. split; [apply Nat.eqb_eq; lia | exact Hf].
+Qed.
+
+Lemma cont_from_nd_comp eps r t t' q :
+  c_sc r = Domain.linear -> c_lo r <= c_hi r -> t' == t -> cont_from_nd eps r t = Some q ->
+  exists q', cont_from_nd eps r t' = Some q' /\ q' == q.
+Proof.
+  intros Hsc Hl E H. unfold cont_from_nd, scale_from_zero_one, c_lo_i, c_hi_i in *. rewrite Hsc in *.
+  cbn [to_int from_int Domain.linear] in *.
+  rewrite (Qleb_comp (- eps) t' (- eps) t) by (lra || reflexivity).
+  rewrite (Qleb_comp t' (1 + eps) t (1 + eps)) by (lra || reflexivity).
+  destruct (Qleb (- eps) t && Qleb t (1 + eps)); [|discriminate]. injection H as <-.
+  eexists. split; [reflexivity|].
+  destruct (Qltb 0 (c_hi r - c_lo r)); [|reflexivity].
+  apply Qclip_comp; [exact Hl|]. rewrite E. reflexivity.
+Qed.
+Lemma int_from_nd_comp eps r t t' z :
+  0 < eps < 1#2 -> i_sc r = Domain.linear -> (i_lo r <= i_hi r)%Z -> t' == t ->
+  int_from_nd eps r t = Some z -> int_from_nd eps r t' = Some z.
+Proof.
+  intros He Hsc Hl E H. unfold int_from_nd, int_from_nd_pre in *.
+  destruct (cont_from_nd eps (i_cont eps r) t) as [q|] eqn:Eq; [|discriminate]. injection H as <-.
+  destruct (cont_from_nd_comp eps (i_cont eps r) t t' q) as (q' & -> & E'); auto.
+  { simpl. apply inject_Z_le in Hl. lra. }
+  simpl. unfold round_to_int. rewrite (round_he_comp _ _ E'). reflexivity.
+Qed.
+
+Lemma Forall2_length {A B} (P : A -> B -> Prop) l1 l2 : Forall2 P l1 l2 -> length l1 = length l2.
+Proof. induction 1; simpl; congruence. Qed.
+(* np.argmax on a vector that is coordinate-wise == a one-hot vector *)
+Lemma nth_Forall2_Qeq : forall (w e : list Q), Forall2 Qeq w e -> forall k, nth k w 0 == nth k e 0.
+Proof. induction 1; intros [|k]; simpl; try reflexivity; auto. Qed.
+Lemma nth_onehot_other : forall n i k, (k <> i)%nat -> nth k (onehot i n) 0 == 0.
+Proof.
+  induction n as [|n IH]; intros i k Hk; [destruct k; reflexivity|].
+  destruct i; destruct k; simpl; try reflexivity; try lia.
+  - clear. revert k. induction n; intros [|k]; simpl; try reflexivity. apply IHn.
+  - apply IH. lia.
+Qed.
+Lemma argmax_pinned_onehot n i w : (i < n)%nat -> Forall2 Qeq w (onehot i n) -> argmax w = i.
+Proof.
+  intros Hi H. pose proof (Forall2_length _ _ _ H) as Hlen. rewrite onehot_length in Hlen.
+  pose proof (nth_Forall2_Qeq _ _ H) as Hn.
+  assert (w <> []) as Hne by (destruct w; [simpl in Hlen; lia | congruence]).
+  pose proof (argmax_lt w Hne) as Hlt. pose proof (argmax_max w i ltac:(lia)) as Hmax.
+  destruct (Nat.eq_dec (argmax w) i) as [E|E]; [exact E|]. exfalso.
+  rewrite (Hn i), (Hn (argmax w)), nth_onehot, (nth_onehot_other n i (argmax w) E) in Hmax by exact Hi. lra.
+Qed.
+Lemma first_tie_pos act best : forall choices v c, first_tie act best choices v = Some c ->
+  exists p, nth_error choices p = Some c /\ mem_val c act = true /\ (p < length v)%nat /\ nth p v 0 == best.
+Proof.
+  induction choices as [|c0 cs IH]; intros [|x xs] c H; simpl in H; try discriminate.
+  destruct (mem_val c0 act && Qeqb x best) eqn:E.
+  - injection H as <-. apply andb_true_iff in E. destruct E as [E1 E2]. apply Qeqb_eq in E2.
+    exists 0%nat. simpl. repeat split; auto. lia.
+  - destruct (IH xs c H) as (p & H1 & H2 & H3 & H4). exists (S p). simpl. repeat split; auto. lia.
+Qed.
+
+Lemma onehot_pinned choices active x e w y :
+  onehot_to_nd choices x = Some e -> Forall2 Qeq w e -> onehot_from_nd choices active w = Some y ->
+  val_eqb x y = true.
+Proof.
+  unfold onehot_to_nd. intros He Hw Hy.
+  destruct (index_of x choices) as [i|] eqn:Hi; [|discriminate]. injection He as <-.
+  destruct (index_of_spec _ _ _ Hi) as (Hlt & c & Hc & Exc).
+  pose proof (argmax_pinned_onehot _ _ _ Hlt Hw) as Ea.
+  pose proof (Forall2_length _ _ _ Hw) as Hlen. rewrite onehot_length in Hlen.
+  unfold onehot_from_nd in Hy. rewrite Hlen, Nat.eqb_refl, Ea, Hc in Hy.
+  destruct active as [act|]; [|injection Hy as <-; exact Exc].
+  destruct (mem_val c act) eqn:Em; [injection Hy as <-; exact Exc|].
+  destruct (first_tie act (nth i w 0) choices w) as [c'|] eqn:T; [|injection Hy as <-; exact Exc].
+  exfalso. destruct (first_tie_pos _ _ _ _ _ T) as (p & Hp & Hpa & Hpl & Hpv).
+  pose proof (nth_Forall2_Qeq _ _ Hw) as Hn.
+  destruct (Nat.eq_dec p i) as [->|Hne]; [congruence|].
+  rewrite (Hn p), (Hn i), nth_onehot, (nth_onehot_other _ i p Hne) in Hpv by exact Hlt. lra.
+Qed.
+
+(* what the pinned-block theorem needs beyond the round-trip conditions: linear scaling for the
+   scalar ranges (compatibility of the decoder with == is proved for the linear scaling) *)
+Definition hp_fix_ok (eps : Q) (h : hprange) : Prop :=
+  match h with
+  | HCont r => c_sc r = Domain.linear /\ c_lo r <= c_hi r
+  | HInt r => i_sc r = Domain.linear /\ (i_lo r <= i_hi r)%Z
+  | HFin r => (1 <= f_size r)%Z
+  | HOneHot _ _ => True
+  | HBin c r | HOrdEq c r => (i_lo r <= i_hi r)%Z
+  | HOrdNN _ _ _ => False          (* nearest-neighbour ordinals: not covered *)
+  end.
+
+(* get_ndarray_bounds with value_for_last_pos pins EVERY coordinate of the last block to the
+   encoding of the value; every vector inside these pinned bounds decodes to that value *)
+Lemma fixed_block_decodes eps h x e w y :
+  0 < eps < 1#2 -> hp_rt_ok eps h -> hp_fix_ok eps h -> hp_rt_member h x ->
+  hp_to_nd eps h x = Some e -> in_bounds (map (fun t => (t, t)) e) w = true ->
+  hp_from_nd eps h w = Some y -> val_equiv x y.
+Proof.
+  intros He Hrt Hfix Hm Hto Hin Hy. unfold val_equiv.
+  pose proof (in_bounds_pinned _ _ Hin) as Hw.
+  destruct (hp_roundtrip eps h x He Hrt Hm) as (e0 & y0 & E1 & E2 & E3 & E4 & E5).
+  rewrite Hto in E1. injection E1 as <-. unfold val_equiv in E5.
+  destruct h as [r|r|r|c a|c r|c r|sc c r]; simpl in Hfix, Hto, E4, Hy; try contradiction.
+  - (* continuous *)
+    destruct (cont_to_nd eps r (val_num x)) as [t|]; [|discriminate]. injection Hto as <-.
+    inversion Hw as [|t' ? w' ? Et Hw']; subst. inversion Hw'; subst.
+    destruct (cont_from_nd eps r t) as [q|] eqn:Eq; [|discriminate]. injection E4 as <-.
+    destruct Hfix as [Hsc Hl]. destruct (cont_from_nd_comp eps r t t' q Hsc Hl Et Eq) as (q' & Eq' & Eqq).
+    rewrite Eq' in Hy. injection Hy as <-. eapply val_eqb_trans; [exact E5|]. simpl. apply Qeqb_eq. lra.
+  - (* integer *)
+    assert (exists t, e = [t]) as [t ->].
+    { destruct x; simpl in Hto; match type of Hto with one ?o = _ => destruct o; [|discriminate] end;
+        injection Hto as <-; eauto. }
+    inversion Hw as [|t' ? w' ? Et Hw']; subst. inversion Hw'; subst.
+    destruct (int_from_nd eps r t) as [z|] eqn:Ez; [|discriminate]. injection E4 as <-.
+    destruct Hfix as [Hsc Hl]. rewrite (int_from_nd_comp eps r t t' z He Hsc Hl Et Ez) in Hy.
+    injection Hy as <-. exact E5.
+  - (* finite range *)
+    destruct (fr_to_nd eps r x) as [t|]; [|discriminate]. injection Hto as <-.
+    inversion Hw as [|t' ? w' ? Et Hw']; subst. inversion Hw'; subst.
+    unfold fr_from_nd in *. destruct (int_from_nd eps (f_rint r) t) as [z|] eqn:Ez; [|discriminate].
+    rewrite (int_from_nd_comp eps (f_rint r) t t' z He eq_refl ltac:(simpl; lia) Et Ez) in Hy.
+    simpl in E4, Hy. rewrite E4 in Hy. injection Hy as <-. exact E5.
+  - (* one-hot *)
+    eapply onehot_pinned; eauto.
+  - destruct (idx_to_nd eps c r x) as [t|]; [|discriminate]. injection Hto as <-.
+    inversion Hw as [|t' ? w' ? Et Hw']; subst. inversion Hw'; subst.
+    unfold idx_from_nd in *. destruct (int_from_nd eps r t) as [z|] eqn:Ez; [|discriminate].
+    destruct Hrt as (Hsc & _). rewrite (int_from_nd_comp eps r t t' z He Hsc Hfix Et Ez) in Hy.
+    rewrite E4 in Hy. injection Hy as <-. exact E5.
+  - destruct (idx_to_nd eps c r x) as [t|]; [|discriminate]. injection Hto as <-.
+    inversion Hw as [|t' ? w' ? Et Hw']; subst. inversion Hw'; subst.
+    unfold idx_from_nd in *. destruct (int_from_nd eps r t) as [z|] eqn:Ez; [|discriminate].
+    destruct Hrt as (Hsc & _). rewrite (int_from_nd_comp eps r t t' z He Hsc Hfix Et Ez) in Hy.
+    rewrite E4 in Hy. injection Hy as <-. exact E5.
+Qed.
+
+(* the shape of get_ndarray_bounds with value_for_last_pos (read off the model's definition): the
+   bounds of the whole space with EVERY coordinate of the last block replaced by (t, t), t ranging
+   over the encoding of the fixed value *)
+Lemma space_bounds_fixed_shape eps hs h rest x e b' :
+  rev hs = h :: rest -> hp_to_nd eps h x = Some e -> space_bounds_all eps hs = Some b' ->
+  space_bounds eps hs (Some x) = Some (firstn (length b' - length e) b' ++ map (fun t => (t, t)) e).
+Proof. intros Hr He Hb. unfold space_bounds. rewrite Hb, Hr, He. reflexivity. Qed.
